@@ -862,14 +862,24 @@ func randomCase(seed int64, idx int64) *fileCase {
 	return c
 }
 
-// bigCase: more than 10 000 data chunks, so that the real filer.MaybeManifestize
-// (ManifestBatch = 10000) builds a manifest. Mostly appended in write order (keeps the
-// interval merge linear), with gaps and some later overwrites.
-func bigCase(seed int64) *fileCase {
-	c := &fileCase{Kind: "big", Index: 0, Seed: seed}
-	h := sha1.Sum([]byte(fmt.Sprintf("big/%d", seed)))
+// bigOrders are the list orders of the lists handed to the real filer.MaybeManifestize
+// (ManifestBatch = 10000, so a list needs more data chunks than that). The overlay
+// (mtime) order follows the offsets, which keeps the interval merge linear; what
+// varies is the order in which the chunks are LISTED, i.e. what each manifest batch
+// contains and in which order mergeIntoManifest scans it.
+var bigOrders = []string{"ascending", "descending", "shuffled", "tail-first", "overlapping", "two-batches-shuffled"}
+
+// bigCase builds list number idx: appended chunks with gaps, a few later overwrites,
+// then the listing order of bigOrders[idx].
+func bigCase(seed int64, idx int) *fileCase {
+	c := &fileCase{Kind: "big", Index: int64(idx), Seed: seed}
+	order := bigOrders[idx%len(bigOrders)]
+	h := sha1.Sum([]byte(fmt.Sprintf("big/%d/%d", seed, idx)))
 	rng := rand.New(rand.NewSource(int64(binary.BigEndian.Uint64(h[:8]) >> 1)))
-	const n = 10400
+	n := 10200 + rng.Intn(300)
+	if order == "two-batches-shuffled" {
+		n += 10000
+	}
 	var cur int64
 	for i := 0; i < n; i++ {
 		s := chunkSpec{Size: 1 + rng.Intn(6), Mtime: int64(10 + i), Tag: uint32(rng.Intn(1 << 20)), UseFid: rng.Intn(2) == 0}
@@ -880,41 +890,82 @@ func bigCase(seed int64) *fileCase {
 		cur += int64(s.Size)
 		c.Chunks = append(c.Chunks, s)
 	}
-	for i := 0; i < 3; i++ {
-		s := chunkSpec{Size: 1 + rng.Intn(9), Mtime: int64(100000 + i), Tag: uint32(rng.Intn(1 << 20)), Off: rng.Int63n(cur)}
-		// listed at a random position: some end up inside the manifest, some after it
-		p := rng.Intn(len(c.Chunks))
+	insert := func(p int, s chunkSpec) {
 		c.Chunks = append(c.Chunks, chunkSpec{})
 		copy(c.Chunks[p+1:], c.Chunks[p:])
 		c.Chunks[p] = s
 	}
-	c.FileSize = cur + 7
+	switch order {
+	case "descending": // written tail first
+		for a, b := 0, len(c.Chunks)-1; a < b; a, b = a+1, b-1 {
+			c.Chunks[a], c.Chunks[b] = c.Chunks[b], c.Chunks[a]
+		}
+	case "shuffled", "two-batches-shuffled": // parallel uploads
+		rng.Shuffle(len(c.Chunks), func(a, b int) { c.Chunks[a], c.Chunks[b] = c.Chunks[b], c.Chunks[a] })
+	case "tail-first": // the last part of the file is listed first, then the rest in order
+		k := len(c.Chunks) - 1 - rng.Intn(len(c.Chunks)/3)
+		c.Chunks = append(append([]chunkSpec{}, c.Chunks[k:]...), c.Chunks[:k]...)
+	case "overlapping": // bigger, newer chunks that start before older ones; one reaches past the old end and is listed first
+		s := chunkSpec{Off: cur - int64(20+rng.Intn(60)), Size: 100 + rng.Intn(100), Mtime: 200000, Tag: uint32(rng.Intn(1 << 20))}
+		cur = s.Off + int64(s.Size)
+		insert(0, s)
+		for i := 0; i < 2; i++ {
+			insert(1+rng.Intn(len(c.Chunks)-1), chunkSpec{Off: rng.Int63n(cur - 300), Size: 50 + rng.Intn(150), Mtime: int64(200001 + i), Tag: uint32(rng.Intn(1 << 20))})
+		}
+	}
+	// a few small later overwrites, listed anywhere (inside a manifest batch or after it)
+	for i := 0; i < 3; i++ {
+		insert(rng.Intn(len(c.Chunks)), chunkSpec{Size: 1 + rng.Intn(9), Mtime: int64(100000 + i), Tag: uint32(rng.Intn(1 << 20)), Off: rng.Int63n(cur - 10)})
+	}
+	c.FileSize = cur
+	if rng.Intn(2) == 0 {
+		c.FileSize += 7
+	}
 	return c
 }
 
-func (d *drv) runBig(c *fileCase) {
+// runBig hands the list to the real MaybeManifestize (through the flow of
+// filehandle.doFlush / FilerServer.cleanupChunks, or directly as AppendToEntry does) and
+// reads the result back. whole: also read the whole file through ChunkReadAt.
+func (d *drv) runBig(c *fileCase, whole bool) {
+	order := bigOrders[int(c.Index)%len(bigOrders)]
+	variant := "real-manifestize"
+	bad := func(class string, extra map[string]interface{}) {
+		m := map[string]interface{}{"kind": "big", "index": c.Index, "seed": c.Seed, "order": order}
+		for k, v := range extra {
+			m[k] = v
+		}
+		d.r.Violation(lib.Sig{"reader": "views", "class": class, "variant": variant, "order": order}, m)
+	}
 	defer func() {
 		if e := recover(); e != nil {
-			d.r.Violation(lib.Sig{"reader": "any", "class": "panic", "variant": "real-manifestize"}, map[string]interface{}{"kind": "big", "seed": c.Seed, "panic": fmt.Sprint(e)})
+			bad("panic", map[string]interface{}{"panic": fmt.Sprint(e)})
 		}
 	}()
-	rng := d.r.SubRng("big-windows")
+	h := sha1.Sum([]byte(fmt.Sprintf("big-windows/%d/%d", c.Seed, c.Index)))
+	rng := rand.New(rand.NewSource(int64(binary.BigEndian.Uint64(h[:8]) >> 1)))
 	in := d.build(c)
 	d.serve(in)
 	d.r.Count("lists_big", 1)
-	d.r.Nontrivial("big/" + fmt.Sprint(c.Seed))
-	// the flow of filehandle.doFlush / FilerServer.cleanupChunks
+	d.r.Count("lists_big_"+order, 1)
+	d.r.Nontrivial(fmt.Sprintf("big/%d/%d", c.Seed, c.Index))
 	t0 := time.Now()
-	progress(t0, "big: built")
-	manifestChunks, nonManifest := filer.SeparateManifestChunks(cloneChunks(in.chunks))
-	compacted, garbage := filer.CompactFileChunks(d.bs.Lookup, nonManifest)
-	chunks, err := filer.MaybeManifestize(d.saveAsChunk(in, true), compacted)
+	var chunks, garbage []*filer_pb.FileChunk
+	var err error
+	compactFirst := c.Index%2 == 0
+	if compactFirst {
+		manifestChunks, nonManifest := filer.SeparateManifestChunks(cloneChunks(in.chunks))
+		var compacted []*filer_pb.FileChunk
+		compacted, garbage = filer.CompactFileChunks(d.bs.Lookup, nonManifest)
+		chunks, err = filer.MaybeManifestize(d.saveAsChunk(in, true), compacted)
+		chunks = append(chunks, manifestChunks...)
+	} else {
+		chunks, err = filer.MaybeManifestize(d.saveAsChunk(in, rng.Intn(2) == 0), cloneChunks(in.chunks))
+	}
 	if err != nil {
-		d.r.Violation(lib.Sig{"reader": "views", "class": "manifestize-error", "variant": "real-manifestize"}, map[string]interface{}{"kind": "big", "seed": c.Seed, "err": err.Error()})
+		bad("manifestize-error", map[string]interface{}{"err": err.Error()})
 		return
 	}
-	chunks = append(chunks, manifestChunks...)
-	progress(t0, "big: manifestized")
 	nm := 0
 	for _, ch := range chunks {
 		if ch.IsChunkManifest {
@@ -922,32 +973,52 @@ func (d *drv) runBig(c *fileCase) {
 		}
 	}
 	d.r.Count("real_MaybeManifestize_manifest_chunks", int64(nm))
-	d.r.Note("big_case", map[string]interface{}{"input_chunks": len(in.chunks), "compaction_garbage": len(garbage), "after_manifestize": len(chunks), "manifest_chunks": nm, "file_size": c.FileSize})
+	d.r.Note("big_case_"+order, map[string]interface{}{"input_chunks": len(in.chunks), "compacted_first": compactFirst, "compaction_garbage": len(garbage),
+		"after_manifestize": len(chunks), "manifest_chunks": nm, "file_size": c.FileSize})
 	if nm == 0 {
-		d.r.Inconclusive("the real MaybeManifestize built no manifest (fewer than 10000 visible chunks)")
+		d.r.Inconclusive("the real MaybeManifestize built no manifest (fewer than 10000 data chunks)")
 		return
 	}
-	win := randomWindows(rng, in, 3, c.FileSize)
-	win = append(win, [2]int64{0, c.FileSize})
-	d.levelA(in, chunks, "real-manifestize", win, true)
-	progress(t0, "big: A done")
-	// one read of the whole file (10 000+ chunk fetches) and a few short windows
-	wb := [][2]int64{{0, c.FileSize}}
-	for _, w := range randomWindows(rng, in, 12, c.FileSize+2) {
-		if w[1]-w[0] > 2000 {
-			w[1] = w[0] + 2000
+	// the size the filer derives from the chunk list must not change
+	d.r.Eval(1)
+	if got, want := filer.TotalSize(chunks), uint64(in.total); got != want {
+		bad("total-size-differs", map[string]interface{}{"total_size_manifestized": got, "total_size_original": want})
+	}
+	// manifestizing again must leave it alone
+	again, err2 := filer.MaybeManifestize(d.saveAsChunk(in, false), cloneChunks(chunks))
+	if err2 != nil || len(again) != len(chunks) {
+		bad("second-manifestize-changes-list", map[string]interface{}{"err": fmt.Sprint(err2), "before": len(chunks), "after": len(again)})
+	}
+	// level A: the whole file, both ends, chunk-boundary windows
+	end := c.FileSize
+	win := [][2]int64{{0, end}, {0, 64}, {end - 64, end}, {in.total - 3, in.total}, {end - 1, end + 2}}
+	win = append(win, randomWindows(rng, in, 6, end)...)
+	d.levelA(in, chunks, variant, win, true)
+	// level B: short windows at both ends and inside (each byte costs a chunk fetch)
+	wb := [][2]int64{{0, 300}, {end - 300, end + 2}, {in.total - 40, in.total}}
+	for _, w := range randomWindows(rng, in, 4, end+2) {
+		if w[1]-w[0] > 400 {
+			w[1] = w[0] + 400
 		}
 		wb = append(wb, w)
 	}
-	d.levelB(in, cloneChunks(chunks), "real-manifestize", true, wb)
-	progress(t0, "big: B done")
-	var sw [][2]int64
-	for _, w := range randomWindows(rng, in, 40, c.FileSize) {
-		if w[1]-w[0] <= 64 && len(sw) < 2 {
+	if whole {
+		wb = append(wb, [2]int64{0, end})
+	}
+	d.levelB(in, cloneChunks(chunks), variant, c.Index%3 != 2, wb)
+	// level C
+	sw := [][2]int64{{in.total - 50, 50}, {0, 80}}
+	if end > in.total {
+		sw = append(sw, [2]int64{in.total - 20, end - in.total + 20})
+	}
+	for _, w := range randomWindows(rng, in, 40, end) {
+		if w[1]-w[0] <= 64 && len(sw) < 5 {
 			sw = append(sw, [2]int64{w[0], w[1] - w[0]})
 		}
 	}
-	d.levelC(in, cloneChunks(chunks), "real-manifestize", sw)
+	d.levelC(in, cloneChunks(chunks), variant, sw)
+	d.release(in.fids)
+	progress(t0, "big "+order+" done")
 }
 
 // progress writes a diagnostic line (phase, wall and CPU seconds so far) to stderr.
@@ -971,7 +1042,7 @@ func main() {
 	r := lib.Start("C17", "exploration")
 	r.SetRule("a case is a chunk list (offset,size,mtime,list order; plain/gzip/encrypted chunks; FileId string or Fid struct) plus a file size; " +
 		"bounded-exhaustive: every ordered tuple of <=3 chunks over offsets 0..7 x sizes 1..4 with the tuple order as overlay (mtime) order, " +
-		"plus a seeded sample of 4-chunk tuples (quick 4 000, thorough 100 000), seeded random lists of <=40 chunks over offsets 0..4095 and (thorough) one list of 10 403 chunks for the real MaybeManifestize; " +
+		"plus a seeded sample of 4-chunk tuples (quick 4 000, thorough 100 000), seeded random lists of <=40 chunks over offsets 0..4095 and lists of 10 200..20 500 chunks listed ascending, descending, shuffled, tail-first, with overlapping newer chunks, and in two batches, for the real MaybeManifestize (quick 6, thorough 18); " +
 		"every window [a,b) of small files / 200 random windows of large ones. distinct = distinct (file size, chunk offsets, sizes, mtimes, encodings in list order); " +
 		"non-trivial = at least two chunks overlap or the file has a hole")
 	r.Assume("chunk modification times within one list are distinct (for equal mtimes 'newest' is not defined by the statement)")
@@ -996,8 +1067,8 @@ func main() {
 		var c fileCase
 		r.Must(r.LoadReplay(&c), "load replay")
 		if c.Kind == "big" || len(c.Chunks) == 0 {
-			bc := bigCase(c.Seed)
-			d.runBig(bc)
+			bc := bigCase(c.Seed, int(c.Index))
+			d.runBig(bc, true)
 		} else {
 			d.runCase(&c, plan{full: true})
 		}
@@ -1028,6 +1099,11 @@ func main() {
 				}
 				if atomic.AddInt64(&jobNo, 1)%512 == 0 { // panics are caught per case; this only bounds the search after a hard crash
 					r.Case(map[string]interface{}{"kind": j.kind, "near_index": j.idx})
+				}
+				if j.kind == "big" {
+					r.Case(map[string]interface{}{"kind": "big", "index": j.idx, "seed": r.Seed})
+					d.runBig(bigCase(r.Seed, int(j.idx)), r.Thorough() && j.idx == 0)
+					continue
 				}
 				if j.kind == "random" {
 					c := randomCase(r.Seed, j.idx)
@@ -1075,6 +1151,14 @@ func main() {
 			jobs <- job{kind, L, rng.Int63n(pow32(L)), 8, 4}
 		}
 	}
+	// the real MaybeManifestize on lists of more than ManifestBatch chunks, one (thorough: three) per listing order
+	nBig := r.Pick(len(bigOrders), 3*len(bigOrders))
+	if v := os.Getenv("VERIF_C17_NBIG"); v != "" { // development aid only
+		fmt.Sscan(v, &nBig)
+	}
+	for i := 0; i < nBig; i++ {
+		jobs <- job{kind: "big", idx: int64(i)}
+	}
 	full("exh1", 1, 8, 4)
 	full("exh2", 2, 8, 4)
 	maxL := 3
@@ -1100,14 +1184,9 @@ func main() {
 	r.SetExhaustive(false)
 
 	progress(t0, "random done")
-	// ---- the real MaybeManifestize
-	if r.Violations() <= 50 && r.Thorough() {
-		bc := bigCase(r.Seed)
-		r.Case(map[string]interface{}{"kind": "big", "seed": r.Seed})
-		d.runBig(bc)
+	if r.Counter("real_MaybeManifestize_manifest_chunks") == 0 && r.Violations() == 0 {
+		r.Inconclusive("the real MaybeManifestize never built a manifest")
 	}
-
-	progress(t0, "big done")
 	r.Note("worker_seconds_per_level(not an oracle input)", map[string]float64{"A_views": float64(tA) / 1e9, "B_ReadAt": float64(tB) / 1e9, "C_StreamContent": float64(tC) / 1e9})
 	r.Note("blob_server", map[string]int64{"requests": atomic.LoadInt64(&bs.Requests), "range_requests": atomic.LoadInt64(&bs.RangeRequests),
 		"gzip_responses": atomic.LoadInt64(&bs.GzipResponses), "not_found": atomic.LoadInt64(&bs.NotFound), "lookups": atomic.LoadInt64(&bs.Lookups)})
